@@ -57,7 +57,7 @@ def main():
         work.append((kind, name, m.group(1), patch))
     with concurrent.futures.ThreadPoolExecutor(jobs) as ex:
         results = list(ex.map(one, work))
-    out = os.path.join(VERIF, "seeded", "sweep-%s.json" % kind)
+    out = os.path.join(VERIF, "seeded", "sweep-%s%s.json" % (kind, ("-seed" + os.environ["VERIF_SEED"]) if os.environ.get("VERIF_SEED") else ""))
     prev = {r["name"]: r for r in json.load(open(out))} if os.path.exists(out) and only else {}
     for r in results:
         prev[r["name"]] = r
